@@ -208,6 +208,52 @@ func runAll(c *run.Ctx) {
 	// polygons nested in holes: the second operand lives around a hole of the first (inside it,
 	// crossing its ring, touching it), with a random start vertex — the containment probes of
 	// the per-type-pair routines only look at one vertex of each operand
+	// two triangular holes sharing one bounding box (complementary halves of a square, a gap between them), in
+	// both ring orders, probed by points / lines / small polygons inside each hole, between them and around
+	for i := 0; i < c.N(1200, 20000); i++ {
+		c.Case("hole-boxes", i, func(k *run.K) {
+			r := k.Rng
+			n := r.Range(8, 11) // the holes live in [1,n]^2
+			S := float64(n + 4)
+			shell := []float64{0, 0, S, 0, S, S, 0, S, 0, 0}
+			N := float64(n)
+			g := float64(r.Range(1, 2)) // gap along the anti-diagonal
+			h1 := []float64{1, 1, N - g, 1, 1, N - g, 1, 1}
+			h2 := []float64{N, N, N, 1 + g, 1 + g, N, N, N}
+			holes := [][]float64{h1, h2}
+			if r.Bool() {
+				holes[0], holes[1] = holes[1], holes[0]
+			}
+			a := geom.NewPolygonXY(shell, holes[0], holes[1]).AsGeometry()
+			if r.Chance(1, 3) {
+				a = geom.NewMultiPolygon([]geom.Polygon{a.MustAsPolygon()}).AsGeometry()
+			}
+			px, py := float64(r.Range(1, n)), float64(r.Range(1, n))
+			if r.Bool() { // strictly inside one of the triangles, off the lattice
+				px, py = px+0.25, py+0.5
+			}
+			var b geom.Geometry
+			switch r.Intn(4) {
+			case 0:
+				b = geom.NewPointXY(px, py).AsGeometry()
+			case 1:
+				b = geom.NewMultiPointXY(px, py, px+0.25, py+0.25).AsGeometry()
+			case 2:
+				b = geom.NewLineStringXY(px, py, px+0.5, py+0.25).AsGeometry()
+			default:
+				b = geom.NewPolygonXY([]float64{px, py, px + 0.5, py, px + 0.5, py + 0.5, px, py}).AsGeometry()
+			}
+			if !exact.ValidGeom(a).OK || !exact.ValidGeom(b).OK {
+				k.Skip("intersects-exact")
+				return
+			}
+			k.In("domain", gen.DSmall)
+			k.In("a", shared.WKT(a))
+			k.In("b", shared.WKT(b))
+			Pair(k, gen.DSmall, a, b)
+			Pair(k, gen.DSmall, b, a)
+		})
+	}
 	for i := 0; i < c.N(1500, 30000); i++ {
 		c.Case("in-hole", i, func(k *run.K) {
 			r := k.Rng
